@@ -63,7 +63,7 @@ def main():
              "per k in 1..N x kind in {ENOSPC, EACCES, EIO, genuine short write, short write whose retry fails with "
              "ENOSPC}; plus determinism runs (second fresh run, runs over directories populated with longer / truncated / empty / "
              "same-length stale files, a re-run after every failed run, invocation variants - relative paths from another "
-             "cwd, nested new output directory, trailing slash, other schema file name, other locale/TZ/HOME - and the "
+             "cwd, nested new output directory, trailing slash, other schema file name, other locale/TZ/HOME, and address-space variants: no ASLR, every allocation mmapped, malloc perturbation, 100 KB of extra environment - and the "
              "ASan/UBSan build). An "
              "evaluation is one sbeppc execution; distinct_nontrivial counts distinct (schema, k, kind) runs in which the "
              "shim really disturbed a call (logged INJECTED).")
@@ -142,6 +142,15 @@ def main():
                    ("environment", [rel, "--output-dir", os.path.join(sd, "envout"), xmlp], "/", os.path.join(sd, "envout"),
                     {"LC_ALL": "tr_TR.UTF-8", "LANG": "de_DE.UTF-8", "TZ": "Pacific/Kiritimati", "HOME": "/nonexistent", "TMPDIR": "/nonexistent",
                      "COLUMNS": "20", "NO_COLOR": "1", "TERM": "dumb"})]
+            # address-space variants: if any container keyed by addresses (or anything else that differs between two
+            # processes) ever steered the output, different heap/stack/mmap layouts would show it
+            big_env = {"VERIF_PAD_%d" % i: "x" * 4000 for i in range(25)}
+            inv += [("no-aslr", ["setarch", "x86_64", "-R", rel, "--output-dir", os.path.join(sd, "as1"), xmlp], None, os.path.join(sd, "as1"), None),
+                    ("every-allocation-mmapped", [rel, "--output-dir", os.path.join(sd, "as2"), xmlp], None, os.path.join(sd, "as2"),
+                     {"MALLOC_MMAP_THRESHOLD_": "0", "MALLOC_MMAP_MAX_": "1000000"}),
+                    ("malloc-perturb-top-pad", [rel, "--output-dir", os.path.join(sd, "as3"), xmlp], None, os.path.join(sd, "as3"),
+                     {"MALLOC_PERTURB_": "165", "MALLOC_TOP_PAD_": "1048576", "MALLOC_ARENA_MAX": "1"}),
+                    ("large-environment", [rel, "--output-dir", os.path.join(sd, "as4"), xmlp], None, os.path.join(sd, "as4"), big_env)]
             for iname, cmd, cwd, od, env_ in inv:
                 rci, oi, _, toi = C.run(cmd, timeout=120, cwd=cwd, env=env_)
                 rep.evaluation()
